@@ -677,6 +677,10 @@ func c06console(w *W, c asyncCase, ci int) string {
 }
 
 func c06Worker(w *W) {
+	if w.Spec.Kind == "manydiscards" {
+		c06ManyDiscards(w)
+		return
+	}
 	registerMonitorPlugins()
 	y := installYielder(uint64(w.Spec.Seed), 0, 0)
 	if w.Spec.Kind == "rolling" {
@@ -900,6 +904,9 @@ func init() {
 				}
 				specs = append(specs, s)
 			}
+			md := d.NewSpec("manydiscards", "manydiscards", 70, 12)
+			md.TimeoutS = int(d.Pick(300, 600))
+			specs = append(specs, md)
 			rs := d.NewSpec("rolling", "rolling-async", 60, 12)
 			rs.N = d.Pick(1, 4)
 			rs.TimeoutS = int(d.Pick(300, 600))
